@@ -122,6 +122,17 @@ def bd_run(case):
     for v in H.values():
         _freeze(v)
     kw = dict(subspace_indices=case["sub"], fully_diagonalize=implrun.build_fully(case), hermitian=case["hermitian"])
+    if case.get("solver1"):
+        # third solver flavour: user solver with the deprecated ONE-argument signature (two blocks, Hermitian)
+        import numpy as np
+        from harness import gen, gq
+        from pymablock.block_diagonalization import solve_sylvester_diagonal
+
+        M = gq.dec(case["H"][gen.key((0,) * case["nparam"])])
+        E = [float(M[k][k].re) for k in range(len(case["sub"]))]
+        eigs = tuple(np.array([E[k] for k in range(len(E)) if case["sub"][k] == b]) for b in (0, 1))
+        base = solve_sylvester_diagonal(eigs)
+        kw["solve_sylvester"] = lambda Y: base(Y, (0, 1))
     with warnings.catch_warnings():
         warnings.simplefilter("ignore")
         res = block_diagonalize(dict(H), **kw)
@@ -179,6 +190,7 @@ def oracle_schedules_bd(ctx):
         herm = rng.random() < 0.65
         case = gen.random_case(rng, hermitian=herm, fmt=rng.choice(["sympy", "dense"]), max_blocks=2, max_size=2, max_params=2, N=2)
         nb = max(case["sub"]) + 1
+        case["solver1"] = bool(herm and nb == 2 and case["fmt"] == "dense" and case["fully"] is None and rng.random() < 0.5)
         npar = case["nparam"]
         orders = KS.all_orders(npar, 2)
         base = [(rng.choice(OUTS), (rng.randrange(nb), rng.randrange(nb)) + tuple(rng.choice(orders))) for _ in range(3)]
@@ -398,6 +410,7 @@ def oracle_user_products(ctx):
         case = gen.random_case(rng, hermitian=True, fmt=rng.choice(["dense", "dense", "sympy"]), max_blocks=2, max_size=2,
                                max_params=2, N=2, allow_fully=False, allow_mask=False)
         nb = max(case["sub"]) + 1
+        case["solver1"] = bool(nb == 2 and case["fmt"] == "dense" and rng.random() < 0.4)
         orders = KS.all_orders(case["nparam"], 2 if case["nparam"] == 2 else 3)
         sched = []
         for _ in range(6):
